@@ -26,6 +26,9 @@ pub fn c03_run(run: &Run) {
 }
 pub fn c03_replay(run: &Run, case: &Value) -> Result<Vec<Violation>, String> {
     crate::ts::install_panic_hook();
+    if case.get("ws").is_some() {
+        return crate::c03cli::replay(run, case);
+    }
     replay_case(run, &c03(), case)
 }
 pub fn c04_run(run: &Run) {
@@ -65,5 +68,8 @@ pub fn c12_run(run: &Run) {
 }
 pub fn c12_replay(run: &Run, case: &Value) -> Result<Vec<Violation>, String> {
     crate::ts::install_panic_hook();
+    if case.get("ws").is_some() {
+        return crate::c12cli::replay(run, case);
+    }
     replay_case(run, &crate::c09_12::c12(), case)
 }
